@@ -118,6 +118,10 @@ macro_rules! aligned_harness {
 aligned_harness!(aligned_1_to_8_up_b0, 1, 8, true, 0);
 aligned_harness!(aligned_1_to_16_down_b0, 1, 16, false, 0);
 aligned_harness!(aligned_16_to_1_up_b0, 16, 1, true, 0);
+// downwards with N = 8 / 4: the two earlier blocks can add up to a multiple of N, so that the newest one is still
+// the newest after the position was aligned for N and can be given back inside the region
+aligned_harness!(aligned_1_to_8_down_b0, 1, 8, false, 0);
+aligned_harness!(aligned_2_to_4_down_b0, 2, 4, false, 0);
 aligned_harness!(aligned_8_to_2_down_b0, 8, 2, false, 0);
 aligned_harness!(aligned_4_to_1_up_b1, 4, 1, true, 1);
 aligned_harness!(aligned_16_to_2_down_b1, 16, 2, false, 1);
